@@ -73,12 +73,13 @@ func cmdFn(args []string) {
 			fmt.Printf("   %-8s %-60s %s %.2fs  %s\n", o.Status, o.Name, o.Solver, o.Secs, o.Comment)
 			if o.Status != "proved" {
 				bad++
+				fmt.Printf("        at %s:%d\n", o.Pos.Filename, o.Pos.Line)
 				if o.Model != "" {
 					fmt.Println(indent(firstLines(filterModel(o.Model, r.Q.modelVars), 40), "        "))
 				}
 			}
 			if *dump != "" && strings.Contains(o.Name, *dump) {
-				os.WriteFile("/tmp/govc_dump.smt2", []byte(obligScript(r.Q, o, true)), 0o644)
+				os.WriteFile("/tmp/govc_dump.smt2", []byte(obligScript(r.Q, o, true, "define")), 0o644)
 				fmt.Println("        dumped to /tmp/govc_dump.smt2")
 			}
 		}
